@@ -67,10 +67,14 @@ class IndexScenario(ChangeScenario):
             if code == 'arb':
                 raise ValueError('oops')
             raise RuntimeError(code)
+        async def idx_plain(name: str, **_: Any) -> Any:
+            return {'all': name}          # a second index of the same kind that never fails: untouched by the first one's errors
+        kopf.index('kopfexamples', id='idx_plain', registry=reg, labels={'idx': 'yes'})(idx_plain)
         kopf.index('kopfexamples', id='idx', registry=reg, labels={'idx': 'yes'})(idx)
 
         async def probe(**kw: Any) -> None:
-            env.log('probe', name=kw['name'], etype=kw['type'], rv=kw['body'].metadata.get('resourceVersion'), **snapshot(kw['idx']))
+            env.log('probe', name=kw['name'], etype=kw['type'], rv=kw['body'].metadata.get('resourceVersion'),
+                    plain=sorted(kw['idx_plain'].get('all', [])), **snapshot(kw['idx']))
         kopf.on.event('kopfexamples', id='ev', registry=reg)(probe)
         return reg
 
@@ -93,6 +97,7 @@ class IndexScenario(ChangeScenario):
             return [self.viol(env, 'no-progress', f'execution ended with {env.end_reason}', end=env.end_reason)]
         # the reference: object name -> {key: value}; exclusions after errors
         model: dict[str, dict[Any, str]] = {}
+        plain_model: set[str] = set()             # the never-failing sibling index
         excluded_until: dict[str, float] = {}     # temporary exclusion
         excluded_forever: set[str] = set()
         raws: dict[tuple[str, str], dict] = {}
@@ -117,9 +122,11 @@ class IndexScenario(ChangeScenario):
                 model.pop(name, None)
                 excluded_until.pop(name, None)
                 excluded_forever.discard(name)
+                plain_model.discard(name)
             else:
                 labels = (obj['metadata'].get('labels') or {})
                 code = (obj.get('spec') or {}).get('idx')
+                (plain_model.add if labels.get('idx') == 'yes' else plain_model.discard)(name)
                 if labels.get('idx') != 'yes':
                     model.pop(name, None)
                 elif name in excluded_forever:
@@ -146,6 +153,10 @@ class IndexScenario(ChangeScenario):
                     elif code == 'perm':
                         model.pop(name, None)
                         excluded_forever.add(name)
+            if p.get('plain') is not None and sorted(plain_model) != p['plain']:
+                out.append(self.viol(env, 'index-mismatch', f"t={t}: after the {p['etype']} event of {name} (v{p['rv']}) the never-failing sibling index holds {p['plain']}, "
+                                                            f"the matching live objects are {sorted(plain_model)}", clause='mirror', cls='sibling-index-disturbed'))
+                break
             want: dict[str, list[str]] = {}
             for n, kv in model.items():
                 for key, val in kv.items():
